@@ -311,6 +311,138 @@ impl Exec {
         }
     }
 
+    /// `op resume k extra size <rec>`: what `bootstrap::start_server` does with an existing journal — restore from the
+    /// file cut after k records + `extra` bytes, reopen it with the REAL `JournalWriter::create_or_append(path,
+    /// truncate_size)`, append the `ServerStart` record, stop; then restart once more from the resulting file.
+    pub fn op_resume(&mut self, tr: &mut Trace, k: usize, extra: u64) {
+        self.load_file();
+        let cut = ((self.boundary(k) + extra) as usize).min(self.file.len());
+        let p = self.dir.join("resume.bin");
+        std::fs::write(&p, &self.file[..cut]).unwrap();
+        let v1 = real_restore(&p);
+        let (spec, producible, _) = Spec::of(&self.recs[..k]);
+        let uid = if spec.uid.is_empty() { "GENUID".to_string() } else { spec.uid.clone() };
+        let rec = Rec::Start(uid);
+        if v1.status != "ok" {
+            tr.op(&format!("resume {k} {extra} 0 {}", rec.tokens()));
+            for l in v1.lines() { tr.out(&l); }
+            return;
+        }
+        let base = v1.trunc.unwrap_or(cut as u64);
+        let wr = catch(|| {
+            let mut w = JournalWriter::create_or_append(&p, v1.trunc).unwrap();
+            w.store(rec.to_event()).unwrap();
+            w.finish().unwrap();
+        });
+        let len = std::fs::metadata(&p).map(|m| m.len()).unwrap_or(0);
+        // the size of the appended record as the real writer encodes it (measured on a fresh file)
+        let q = self.dir.join("one.bin");
+        write_journal(&q, std::slice::from_ref(&rec));
+        let size = std::fs::metadata(&q).unwrap().len() - self.hdr;
+        tr.op(&format!("resume {k} {extra} {size} {}", rec.tokens()));
+        if let Err(m) = wr {
+            tr.out(&format!("!panic {}", panic_kw(&m)));
+            return;
+        }
+        let v2 = real_restore(&p);
+        for l in v2.lines() { tr.out(&l); }
+        if !self.monitors || !producible { return; }
+        if len != base + size {
+            tr.mon_fail("c10.torn_tail", "resume-file-length", &format!("after reopening at {base} and appending a {size}-byte record the file has {len} bytes"));
+        }
+        // reference: the same records written to a fresh file
+        let c = self.dir.join("clean.bin");
+        let mut recs: Vec<Rec> = self.recs[..k].to_vec();
+        recs.push(rec);
+        write_journal(&c, &recs);
+        let vc = real_restore(&c);
+        if v2 != vc {
+            tr.mon_fail("c10.torn_tail", "second-restart-after-torn-tail", &format!("restart from (journal cut at {k}+{extra}, reopened, ServerStart appended) gives `{}`, the same records in a clean file give `{}`", v2.status, vc.status));
+        }
+    }
+
+    /// `op sprune k jobs workers k2`: the REAL journal thread (`start_event_streaming` -> `streaming_process`) receives the
+    /// first k records as events (not flushed: flush period one hour), then a `PruneJournal` request with the live sets,
+    /// then the records k..k2, then its channel closes. Prints the records of the resulting file.
+    pub fn op_sprune(&mut self, tr: &mut Trace, k: usize, lj: &[u32], lw: &[u32], k2: usize) {
+        use hyperqueue::server::event::journal::{EventStreamMessage, start_event_streaming};
+        tr.op(&format!("sprune {k} {} {} {k2}", list(lj.iter()), list(lw.iter())));
+        let path = self.dir.join("stream.bin");
+        let _ = std::fs::remove_file(&path);
+        let recs = self.recs.clone();
+        let (lj2, lw2) = (lj.to_vec(), lw.to_vec());
+        let p2 = path.clone();
+        let r = catch(move || {
+            // one journal thread per server life: a `ServerStop` event ends the thread (as in the real server), the
+            // next event belongs to the next life, which reopens the file with `create_or_append(path, None)`
+            struct Life { tx: Option<hyperqueue::server::event::journal::EventStreamSender>, end: Option<std::pin::Pin<Box<dyn std::future::Future<Output = ()>>>>, path: PathBuf }
+            impl Life {
+                fn tx(&mut self) -> &hyperqueue::server::event::journal::EventStreamSender {
+                    if self.tx.is_none() {
+                        let writer = JournalWriter::create_or_append(&self.path, None).unwrap();
+                        let (tx, end) = start_event_streaming(writer, &self.path, std::time::Duration::from_secs(3600));
+                        self.tx = Some(tx);
+                        self.end = Some(Box::pin(end));
+                    }
+                    self.tx.as_ref().unwrap()
+                }
+                fn stop(&mut self) {
+                    self.tx = None;
+                    if let Some(end) = self.end.take() { futures::executor::block_on(end); }
+                }
+                fn send(&mut self, r: &Rec) {
+                    let _ = self.tx().send(EventStreamMessage::Event(r.to_event()));
+                    if matches!(r, Rec::Stop) { self.stop(); }
+                }
+            }
+            let mut life = Life { tx: None, end: None, path: p2.clone() };
+            for r in &recs[..k] { life.send(r); }
+            let (cb, done) = tokio::sync::oneshot::channel();
+            life.tx().send(EventStreamMessage::PruneJournal {
+                callback: cb,
+                live_jobs: lj2.iter().map(|j| tako::JobId::new(*j)).collect(),
+                live_workers: lw2.iter().map(|w| tako::WorkerId::new(*w)).collect(),
+            }).unwrap();
+            let pruned_ok = done.blocking_recv().is_ok();
+            for r in &recs[k..k2] { life.send(r); }
+            life.stop();
+            pruned_ok
+        });
+        match r {
+            Err(m) => tr.out(&format!("!panic {}", panic_kw(&m))),
+            Ok(false) => tr.out("pn !error"),
+            Ok(true) => match read_journal(&path) {
+                Ok((got, partial)) => {
+                    tr.out(&format!("pn {}", got.len()));
+                    for r in &got { tr.out(&format!("prec {}", r.tokens())); }
+                    if partial && self.monitors { tr.mon_fail("c12.wf", "streamed-pruned-file-partial", "journal written by the journal thread around a prune has a torn tail"); }
+                    if self.monitors {
+                        // reference: prune_journal on a flushed file of the first k records, then the later records
+                        let src = self.dir.join("sprune_src.bin");
+                        let dst = self.dir.join("sprune_ref.bin");
+                        write_journal(&src, &self.recs[..k]);
+                        if let Ok(Ok(())) = catch(|| hook::prune(&src, &dst, lj, lw)) {
+                            if let Ok((mut want, _)) = read_journal(&dst) {
+                                want.extend(self.recs[k..k2].iter().cloned());
+                                if want != got {
+                                    let i = want.iter().zip(got.iter()).position(|(a, b)| a != b).unwrap_or(want.len().min(got.len()));
+                                    tr.mon_fail("c12.prune_equiv", "journal-thread-prune-loses-records", &format!(
+                                        "journal thread: {k} events, prune, {} events -> file has {} records, prune_journal of the same {k} records + the later ones has {}; first difference at record {i}: `{}` vs `{}`",
+                                        k2 - k, got.len(), want.len(),
+                                        got.get(i).map(|r| r.tokens()).unwrap_or("<end>".into()), want.get(i).map(|r| r.tokens()).unwrap_or("<end>".into())));
+                                }
+                            }
+                        }
+                    }
+                }
+                Err(e) => {
+                    tr.out("pn !unreadable");
+                    if self.monitors { tr.mon_fail("c12.wf", "streamed-pruned-file-unreadable", &e); }
+                }
+            },
+        }
+    }
+
     fn print_pruned(&self, tr: &mut Trace) {
         tr.out(&format!("pn {}", self.pruned.len()));
         for r in &self.pruned { tr.out(&format!("prec {}", r.tokens())); }
